@@ -132,11 +132,15 @@ def rule_conversion_factor_memo(ck, ix):
     ck.floor("G-MEMO-KEY", len(sites), 1, "conversion_factor memo lookup")
     defs = defs_of(fi)
     for s in sites:
-        lk = s.lookup_key
+        lk = defs.inline(s.lookup_key)
+        if isinstance(lk, ast.Call) and call_name(lk) in ("hash", "id", "str", "repr", "len"):
+            ck.fail("G-MEMO-KEY", "conversion_factor|key-is-the-unit-pair-itself", fi.loc(lk),
+                    f"the factor memo is keyed by `{norm(lk)}`, a lossy projection of (src, dst): distinct unit pairs can share one slot (e.g. hash(-1) == hash(-2))")
+            continue
         ck.floor("G-MEMO-KEY", len(s.stores), 1, "conversion_factor memo store")
         for (k, v, st) in s.stores:
             re = reassigned_names(fi, names_in(k))
-            ck.check(norm(k) == norm(lk) and not re, "G-MEMO-KEY", "conversion_factor|store-key==lookup-key", fi.loc(st),
+            ck.check(norm(defs.inline(k)) == norm(lk) and not re, "G-MEMO-KEY", "conversion_factor|store-key==lookup-key", fi.loc(st),
                      f"stored under the looked-up key `{norm(k)}`",
                      f"factor stored under `{norm(k)}` but looked up with `{norm(lk)}`" + (f"; {re} reassigned" if re else ""))
             # orientation: key (a, b)  =>  factor = root_units(a / b)
